@@ -16,6 +16,7 @@ package io
 //@ induct [C08.lemma-selcount-exact] (start int, stop int, step int, size int) z : implies(step >= 1 && start >= 0 && size >= 0, selcount(start, stop, step, size) >= 0 && forall(k, 0, size + 1, iff(start + k*step < min(size, stop), k < selcount(start, stop, step, size))))
 
 //@ func sliceSize(slice, size) returns (r)
+//@   simplify entry-ids
 //@   canary [C08.canary-slice-size] r == 0
 //@   safety C08
 //@   requires len(slice) >= 3 && slice[2] >= 1 && slice[0] >= 0 && size >= 0
@@ -24,6 +25,7 @@ package io
 //@   ensures [C08.selection-count-exact] r >= 0 && forall(k, 0, size + 1, iff(slice[0] + k*slice[2] < min(size, slice[1]), k < r))
 
 //@ func makeHyperslab(slice, dims) returns (offset, stride, count, block)
+//@   simplify entry-ids
 //@   safety C08
 //@   fresh offset, stride, count, block
 //@   requires len(dims) >= len(slice)
@@ -63,12 +65,14 @@ package io
 //@ types {T} = ArrayType, Float64, Float32, Int32, Uint32, Int64, Uint64, Int, Uint
 
 //@ func (H5Ref{T}).Load(h) returns (r, err)
+//@   simplify entry-ids
 //@   ndmodel interface
 //@   requires ghost.hdf5lock == 0
 //@   assigns ghost.hdf5lock
 //@   ensures [C08.lock-released] ghost.hdf5lock == 0
 
 //@ func (H5Ref{T}).loadSubset(h, ds) returns (r, err)
+//@   simplify entry-ids
 //@   ndmodel interface
 //@   requires [C08.lock-precondition] ghost.hdf5lock >= 1
 //@   requires h.Slice != nil && forall(i, 0, len(h.Slice), implies(h.Slice[i] != nil, len(h.Slice[i]) >= 3 && h.Slice[i][2] >= 1 && h.Slice[i][0] >= 0))
@@ -82,6 +86,7 @@ package io
 //@   loop 0 invariant [C08.load-shape-loop] implies(len(h.Slice) == len(shape), forall(d, rangeindex + 1, len(shape), shape[d] >= 0 && implies(h.Slice[d] == nil, count[d] == shape[d]) && implies(h.Slice[d] != nil, count[d] == selcount(h.Slice[d][0], h.Slice[d][1], h.Slice[d][2], shape[d]))))
 
 //@ func (H5Ref{T}).Write(h, data) returns (err)
+//@   simplify entry-ids
 //@   ndmodel interface
 //@   requires ghost.hdf5lock == 0 && data != nil
 //@   callsite openOrCreateDataset [C08.write-dataset-shape] len(arg2) == data.rank && forall(i, 0, data.rank, arg2[i] == data.dim(i))
@@ -89,12 +94,14 @@ package io
 //@   ensures [C08.lock-released] ghost.hdf5lock == 0
 
 //@ func (H5Ref{T}).Create(h, shape, fillValue, compress) returns (err)
+//@   simplify entry-ids
 //@   ndmodel interface
 //@   requires ghost.hdf5lock == 0
 //@   assigns ghost.hdf5lock
 //@   ensures [C08.lock-released] ghost.hdf5lock == 0
 
 //@ func (H5Ref{T}).WriteSlice(h, data, loc) returns (err)
+//@   simplify entry-ids
 //@   ndmodel interface
 //@   requires ghost.hdf5lock == 0 && data != nil
 //@   callsite SelectHyperslab [C08.writeslice-block] len(arg1) == len(loc) && forall(i, 0, len(loc), arg1[i] == loc[i] && arg2[i] == 1 && arg3[i] == 1) && len(arg4) == data.rank && forall(i, 0, data.rank, arg4[i] == data.dim(i))
@@ -104,12 +111,14 @@ package io
 //@   ensures [C08.lock-released] ghost.hdf5lock == 0
 
 //@ func (H5Ref{T}).LoadText(h) returns (r, err)
+//@   simplify entry-ids
 //@   ndmodel interface
 //@   requires ghost.hdf5lock == 0
 //@   assigns ghost.hdf5lock
 //@   ensures [C08.lock-released] ghost.hdf5lock == 0
 
 //@ func (H5Ref{T}).GetDatasets(h) returns (r, err)
+//@   simplify entry-ids
 //@   ndmodel interface
 //@   requires ghost.hdf5lock == 0
 //@   assigns ghost.hdf5lock
@@ -117,6 +126,7 @@ package io
 //@   loop 0 invariant 0 <= i
 
 //@ func (H5Ref{T}).GetGroups(h) returns (r, err)
+//@   simplify entry-ids
 //@   ndmodel interface
 //@   requires ghost.hdf5lock == 0
 //@   assigns ghost.hdf5lock
@@ -124,12 +134,14 @@ package io
 //@   loop 0 invariant 0 <= i
 
 //@ func (H5Ref{T}).Shape(h) returns (r, err)
+//@   simplify entry-ids
 //@   ndmodel interface
 //@   requires ghost.hdf5lock == 0
 //@   assigns ghost.hdf5lock
 //@   ensures [C08.lock-released] ghost.hdf5lock == 0
 
 //@ func (H5Ref{T}).Exists(h) returns (r)
+//@   simplify entry-ids
 //@   ndmodel interface
 //@   requires ghost.hdf5lock == 0
 //@   assigns ghost.hdf5lock
@@ -137,18 +149,22 @@ package io
 //@   loop 0 invariant -1 <= rangeindex && ghost.hdf5lock == 0
 
 //@ func openWriteOrCreate(fn, createIfNotExist) returns (f, err)
+//@   simplify entry-ids
 //@   requires [C08.lock-precondition] ghost.hdf5lock == 2
 //@   assigns nothing
 
 //@ func shapesMatch(ds, shape) returns (r)
+//@   simplify entry-ids
 //@   requires [C08.lock-precondition] ghost.hdf5lock >= 1
 //@   assigns nothing
 
 //@ func openOrCreateDataset(f, path, shape, exampleValue, compress) returns (ds, err)
+//@   simplify entry-ids
 //@   requires [C08.lock-precondition] ghost.hdf5lock == 2
 //@   assigns nothing
 
 //@ func createDataset(g, path, shape, exampleValue, compress) returns (ds, err)
+//@   simplify entry-ids
 //@   requires [C08.lock-precondition] ghost.hdf5lock == 2
 //@   assigns nothing
 //@   callsite CreateSimpleDataspace [C08.create-shape] len(arg0) == len(shape) && forall(i, 0, len(shape), arg0[i] == shape[i])
